@@ -35,7 +35,7 @@ def DofsClean (m : MjFeatures) : Prop :=
 /-- a body carries one free joint or only hinge/slide joints (no stacked free joint, no ball) -/
 def StacksClean (m : MjFeatures) : Prop :=
   ∀ g ∈ groupRuns (m.jntBodyid.zip m.jntType), g.2 = [0] ∨ (0 ∉ g.2 ∧ 1 ∉ g.2)
-/-- no cylinder that is long and has a positive collision mask *as the code computes it* -/
+/-- no cylinder that is long and has a positive collision mask (`contype | conaffinity << 32`) -/
 def CylindersClean (m : MjFeatures) : Prop :=
   ∀ r ∈ geomRows m, ¬ (r.1 = 5 ∧ r.2.1.2.1 > cylThreshold ∧ collisionMask r.2.2.1 r.2.2.2 > 0)
 
@@ -64,8 +64,7 @@ of its (hinge/slide) joints -/
 def specLinkType (typs : List Int) : Char :=
   if typs = [0] then 'f' else if typs.length = 1 then '1' else if typs.length = 2 then '2' else '3'
 
-/-- the property's own reading of "colliding long cylinder": either collision bitmask is set.
-(The code only looks at `contype`; see `Props/C14.lean`.) -/
+/-- the property's own reading of "colliding long cylinder": either collision bitmask is set -/
 def CollidingLongCylinder (m : MjFeatures) : Prop :=
   ∃ r ∈ geomRows m, r.1 = 5 ∧ r.2.1.2.1 > cylThreshold ∧ (r.2.2.1 ≠ 0 ∨ r.2.2.2 ≠ 0)
 instance (m : MjFeatures) : Decidable (CollidingLongCylinder m) := by
@@ -106,7 +105,8 @@ def exClean : MjFeatures where
   bodyParentid := [0, 0, 1, 0]
 
 /-- `exClean` whose long cylinder has `contype = 0, conaffinity = 1`: it collides with every geom
-whose contype has bit 0 (the plane, the sphere, the capsule) -/
+whose contype has bit 0 (the plane, the sphere, the capsule).  Before the fix 132d4d7 the code
+accepted it (int32 `conaffinity << 32` was 0); now it is rejected. -/
 def exCylinder : MjFeatures := { exClean with geomConaffinity := [1, 1, 1, 1] }
 
 end Brax.C14
